@@ -81,6 +81,18 @@ func runLifecycle(b Beh, seed int64) ([]J, error) {
 			tr.Stop()
 		}
 	}()
+	// what the controllers know: the accessory key each learned at its pair-setup, and who is paired right now
+	learned := map[string][]byte{}
+	have := map[string]bool{}
+	ident := func(x string) ref.Identity {
+		if x == "self" {
+			// a controller whose pairing identifier is the accessory's own (advertised) device id
+			if _, ok := ids["self"]; !ok {
+				ids["self"] = ref.NewIdentity(tr.AccessoryID(), rndFunc(rng))
+			}
+		}
+		return ids[x]
+	}
 	lines := []J{{"ev": "reset", "case": b.ID}}
 	for i, raw := range b.Steps {
 		var s lcStep
@@ -88,7 +100,7 @@ func runLifecycle(b Beh, seed int64) ([]J, error) {
 			return nil, err
 		}
 		o := J{"ev": "step", "case": b.ID, "i": i, "a": s.A, "x": s.X, "ok": true, "skipped": false,
-			"id": "", "ltpk": "", "cnum": 0, "sf": 0, "pairings": []string{}, "uuidfile": ""}
+			"id": "", "ltpk": "", "cnum": 0, "sf": 0, "pairings": []string{}, "uuidfile": "", "kept": true}
 		switch s.A {
 		case "start":
 			if tr != nil {
@@ -127,11 +139,14 @@ func runLifecycle(b Beh, seed int64) ([]J, error) {
 					return nil, err
 				}
 				c.Timeout = 8 * time.Second
-				sc := &ref.SetupClient{Pin: "001-02-003", ID: ids[s.X], Rnd: rndFunc(rng)}
+				sc := &ref.SetupClient{Pin: "001-02-003", ID: ident(s.X), Rnd: rndFunc(rng)}
 				err = sc.Run(c)
 				c.Close()
 				if err == nil {
 					ok = true
+					if s.X != "self" {
+						learned[s.X], have[s.X] = sc.AccessoryLTPK, true
+					}
 				} else if err != ref.ErrRedraw && err != ref.ErrRedrawB {
 					o["err"] = err.Error()
 					break
@@ -143,7 +158,26 @@ func runLifecycle(b Beh, seed int64) ([]J, error) {
 				o["skipped"] = true
 				break
 			}
-			c, err := tr.verifiedConn(ids[s.X], tr.AccessoryLTPK(), rng)
+			// a controller removes its own pairing; the pairing named like the accessory is removed by any paired controller
+			by := s.X
+			if s.X == "self" {
+				by = ""
+				for _, x := range []string{"a", "b"} {
+					if have[x] {
+						by = x
+						break
+					}
+				}
+				if by == "" {
+					o["skipped"] = true
+					break
+				}
+			}
+			ltpk := learned[by]
+			if ltpk == nil {
+				ltpk = tr.AccessoryLTPK()
+			}
+			c, err := tr.verifiedConn(ids[by], ltpk, rng)
 			if err != nil {
 				o["ok"] = false
 				o["err"] = err.Error()
@@ -153,9 +187,18 @@ func runLifecycle(b Beh, seed int64) ([]J, error) {
 			var t ref.TLV
 			t.AddByte(ref.TagState, 1)
 			t.AddByte(ref.TagMethod, 4)
-			t.Add(ref.TagIdentifier, []byte(ids[s.X].Name))
-			m, _, err := c.PostTLV("/pairings", t)
-			o["ok"] = err == nil && m != nil && m.Status == 200
+			t.Add(ref.TagIdentifier, []byte(ident(s.X).Name))
+			m, rt, err := c.PostTLV("/pairings", t)
+			good := err == nil && m != nil && m.Status == 200
+			if good && rt != nil {
+				if _, bad := rt.Get(ref.TagError); bad {
+					good = false
+				}
+			}
+			o["ok"] = good
+			if good && s.X != "self" {
+				delete(have, s.X)
+			}
 			c.Close()
 		default:
 			return nil, fmt.Errorf("unknown action %q", s.A)
@@ -165,6 +208,24 @@ func runLifecycle(b Beh, seed int64) ([]J, error) {
 				o[k] = v
 			}
 			o["running"] = true
+			// black-box face of "keeps its long-term key pair and pairings": every controller that paired and was not removed
+			// still completes pair-verify against the accessory key it learned when it paired
+			kept := true
+			if s.A != "values" && s.A != "stop" {
+				for _, x := range []string{"a", "b"} {
+					if !have[x] {
+						continue
+					}
+					c, err := tr.verifiedConn(ids[x], learned[x], rng)
+					if err != nil {
+						kept = false
+						o["kepterr"] = x + ": " + err.Error()
+						break
+					}
+					c.Close()
+				}
+			}
+			o["kept"] = kept
 		} else {
 			o["running"] = false
 		}
